@@ -207,6 +207,19 @@ func (H) Run(t *testing.T, c *hx.Case) *hx.Outcome {
 		}
 		return shared
 	}
+	if cfg.SchedSeed%8 == 0 && len(shared.TxIn) > 0 {
+		// a first request comes while one of the spent outputs is not known yet (the web UI asks for transactions
+		// with unknown inputs): it fails - it must not leave anything behind that later requests would use
+		j := int(cfg.SchedSeed>>8) % len(shared.TxIn)
+		keep := shared.Spent_outputs[j]
+		shared.Spent_outputs[j] = nil
+		func() {
+			defer func() { recover() }()
+			shared.TaprootSigHash(&btc.ScriptExecutionData{M_codeseparator_pos: 0xffffffff}, 0, 0, false)
+		}()
+		shared.Spent_outputs[j] = keep
+		out.Probe("failed_request_before_the_spent_outputs_were_complete", 1)
+	}
 	results := make([][]result, cfg.Clients)
 	res := simrt.Run(simrt.Config{Seed: cfg.SchedSeed, YieldP: cfg.YieldP, TimerP: cfg.TimerP, MaxConsec: cfg.MaxConsec, PCT: cfg.PCT, PCTSteps: cfg.PCTSteps, StepBudget: 5_000_000}, func() {
 		var wg simsync.WaitGroup
